@@ -365,7 +365,7 @@ func runC20(r *mon.Run) {
 	r.SetRule("random histories: 3-8 handles forming a tree by Clone(), 10-60 steps appending 2-8 tokens with unique names (Dot, Op+Id, Add(k), Call, Index, chains — always a valid expression continuation, so handles can be rendered with Render itself) to a random handle, so that clone points with and without spare slice capacity both occur; after every step every handle is rendered with Render and inside a NoFormat File, and tokenised; offline checker against a list model admitting live and snapshot views of the original. non-trivial = history with >=1 clone; distinct by operation sequence")
 	r.Assume("a clone that has been appended to may show its original as it was at clone time or as it is now (both admitted: the statement promises isolation of originals and survival of clone tokens); an unmodified clone must render exactly like its original at every step, as the statement says")
 	c20NegControls(r)
-	n := r.Pick(2500, 100000)
+	n := r.Pick(2500, 30000)
 	mon.Parallel(n, func(i int) { c20Case(r, int64(i)) })
 }
 
